@@ -1,7 +1,8 @@
 (* Sync/Extract.v — extraction of the C19 model (ExtrOcamlBasic only) *)
 From Coq Require Import ExtrOcamlBasic ZArith.
-From ZV Require Import Sync.Model.
+From ZV Require Import Sync.Model Sync.Conflict.
 Extraction Language OCaml.
 Extraction "model.ml" Z.of_N N.of_nat Nat.add
   sm_get sm_set is_already_applied is_continue_commit prefilter postprocess apply_entry apply_phases apply_log
-  init_node step0 step run proj counter appended source_state snm_get snm_set apply_snaps apply_log_snaps apply_status_rsp.
+  init_node step0 step run proj counter appended source_state snm_get snm_set apply_snaps apply_log_snaps apply_status_rsp
+  kv_get cmds_apply capply init_cnode cstep crun.
